@@ -45,6 +45,7 @@ def main():
     first.update({r["name"]: r for r in table(f"{V}/seeded/RESULTS-round10-before-strengthening.tsv")})
     first.update({r["name"]: r for r in table(f"{V}/seeded/RESULTS-round11-before-strengthening.tsv")})
     first.update({r["name"]: r for r in table(f"{V}/seeded/RESULTS-round12-before-strengthening.tsv")})
+    first.update({r["name"]: r for r in table(f"{V}/seeded/RESULTS-round13-before-strengthening.tsv")})
     out.append("### B.1 Seeded changes written by independent sub-agents (`seeded/<id>/`)")
     out.append("")
     out.append("Each sub-agent got only the text of one property and its own scratch worktree of `/repo` (nothing from")
@@ -64,7 +65,12 @@ def main():
     out.append("round 12, ids `r12...`, nine changes: met by the checks at `5daa08a`, all nine reported, but r12c12-3 and r12c16-1 only by C14")
     out.append("and not by the check of the property they were written against - C12 then got titlecase letters in its respelling and C16 an")
     out.append("in-place edit of a qualifier value in its builder documents, commit `1d534f6`; the nine rows, all of B.3 and the silent rows of B.2")
-    out.append("were measured again for C12 and C16 against that commit, in scratch copies of `/repo` and `/verif`, C14 being unchanged);")
+    out.append("were measured again for C12 and C16 against that commit, in scratch copies of `/repo` and `/verif`, C14 being unchanged;")
+    out.append("round 13, ids `r13...`, nine changes: met by the checks at `1d534f6`, eight reported, r13c16-2 missed and r13c12-1 reported only by C14 and C16 -")
+    out.append("C12's builder lane then also got the routes that write the checksum straight into `parts.qualifiers`, commit `dcc6b22`, and C16's in-place")
+    out.append("lanes a previous value related to the incoming string, commit `1e09cbc`; the C12 column of B.3 and of the silent rows of B.2 was measured once")
+    out.append("more against the former where it had been measured before it, the C16 column against the latter for the nine patches that touch the")
+    out.append("`Deserialize` implementation - DESIGN.md 7 says why those suffice);")
     out.append("*now* = the checks as they stand. Round 2 and 3 sub-agents were also told which ideas the earlier rounds")
     rows = table(f"{V}/seeded/RESULTS.tsv")
     n_missed = sum(1 for r in rows if r["name"] in first and "caught" not in first[r["name"]]["verdict"] and r["name"] != "r10c14-1")
